@@ -922,13 +922,16 @@ func c05R2Memory(c *Ctx) {
 	for _, e := range c05TreeEnvs(root, 3) {
 		for _, u := range c05FieldUses([]*ssa.Function{e.Fn}, "~/internal/cas.Memory", c05Cur.F("cas.content")) {
 			call, ok := u.Use.(ssa.CallInstruction)
-			if !ok || !c05SyncMapWriters[CalleeName(call)] {
+			if !ok {
+				continue
+			}
+			mv := c05MapOp(call)
+			if mv == nil || mv.Recv != ssa.Value(u.Addr) || !c05SyncMapWriters[mv.Name] || mv.Key == nil || mv.Val == nil {
 				continue
 			}
 			n++
-			args := call.Common().Args
-			key, kat := e.up(args[1])
-			val, vat := e.up(args[2])
+			key, kat := e.up(mv.Key)
+			val, vat := e.up(mv.Val)
 			// value = result 0 of ReadAll
 			var ra *ssa.Call
 			if ex, ok := strip(val).(*ssa.Extract); ok && ex.Index == 0 {
@@ -955,7 +958,7 @@ func c05R2Memory(c *Ctx) {
 				tgt = lv.Call.(ssa.Instruction)
 			}
 			c.Check(R, tn+"|store-dominated-by-verified-read", call.Pos(), ok2,
-				ifelse(ok2, "every path to "+CalleeName(call)+" takes the err==nil edge of ReadAll", "the content map is written on a path where ReadAll did not succeed"))
+				ifelse(ok2, "every path to "+mv.Name+" takes the err==nil edge of ReadAll", "the content map is written on a path where ReadAll did not succeed"))
 			dv, dat := vat.up(ra.Call.Args[1])
 			okKey := false
 			for _, r := range Roots(c05Unspill(key)) {
@@ -1025,27 +1028,42 @@ func c05BlobPathFns(p *Prog) map[*ssa.Function]bool {
 			}
 		}
 	}
-	// wrappers: a one-parameter function whose every non-empty path result is the blob path of its
-	// parameter (a digest) or of its parameter's Digest (a descriptor): descriptorBlobPath(desc)
+	// wrappers: a function whose every non-empty path result is built from the blob path of one of its
+	// parameters (a digest) or of that parameter's Digest (a descriptor): descriptorBlobPath(desc),
+	// (s *Storage).blobTarget(desc) = Join(s.root, blobPath(desc.Digest))
 	for round := 0; round < 2; round++ {
 		for _, f := range c05FuncsOfPkg(p, "content/oci") {
-			if out[f] || f.Parent() != nil || len(f.Params) != 1 || len(f.Blocks) == 0 || f.Signature.Results().Len() == 0 {
+			if out[f] || f.Parent() != nil || len(f.Params) == 0 || len(f.Params) > 2 || len(f.Blocks) == 0 || f.Signature.Results().Len() == 0 {
 				continue
 			}
 			if b, ok := f.Signature.Results().At(0).Type().Underlying().(*types.Basic); !ok || b.Kind() != types.String {
 				continue
 			}
-			good, n := true, 0
+			// the blob-path calls of f and their subjects
+			paths := map[ssa.Value]bool{}
+			var subj *ssa.Parameter
+			good := true
+			for _, call := range Calls(f, func(string) bool { return true }) {
+				if g := StaticCallee(call); g != nil && out[g] {
+					sp := c05BlobPathSubject(call)
+					if sp == nil || sp.Parent() != f || (subj != nil && subj != sp) {
+						good = false
+					}
+					subj = sp
+					if r0 := ResultOf(call, 0); r0 != nil {
+						paths[r0] = true
+					}
+				}
+			}
+			if !good || subj == nil || len(paths) == 0 {
+				continue
+			}
+			n := 0
 			for _, a := range RetAtoms(f, 0) {
 				if s, isS := constString(a.Val); isS && s == "" {
 					continue
 				}
-				v := strip(a.Val)
-				if ex, isE := v.(*ssa.Extract); isE && ex.Index == 0 {
-					v = ex.Tuple
-				}
-				call, isCall := v.(*ssa.Call)
-				if !isCall || StaticCallee(call) == nil || !out[StaticCallee(call)] || c05BlobPathSubject(call) != f.Params[0] {
+				if !derivesFromAny(a.Val, paths, 0) {
 					good = false
 					break
 				}
@@ -1053,26 +1071,47 @@ func c05BlobPathFns(p *Prog) map[*ssa.Function]bool {
 			}
 			if good && n > 0 {
 				out[f] = true
+				for i, q := range f.Params {
+					if q == subj {
+						c05BlobPathSubjIdx[f] = i
+					}
+				}
 			}
 		}
 	}
 	return out
 }
 
+// c05BlobPathSubjIdx: which argument of a blob-path function is the digest / descriptor (default 0).
+var c05BlobPathSubjIdx = map[*ssa.Function]int{}
+
 // c05BlobPathSubject: the parameter (a descriptor, or a digest) of the calling
 // function whose digest the blob-path call is made for.
 func c05BlobPathSubject(call ssa.CallInstruction) *ssa.Parameter {
-	args := call.Common().Args
-	if len(args) != 1 {
+	a := c05BlobPathArg(call)
+	if a == nil {
 		return nil
 	}
-	if c05IsOCIDescriptor(args[0].Type()) {
-		return c05DescSource(args[0])
+	if c05IsOCIDescriptor(a.Type()) {
+		return c05DescSource(a)
 	}
-	if p := c05FieldOfParam(args[0], "Digest"); p != nil {
+	if p := c05FieldOfParam(a, "Digest"); p != nil {
 		return p
 	}
-	return c05ParamOf(args[0])
+	return c05ParamOf(a)
+}
+
+// c05BlobPathArg: the digest / descriptor argument of a blob-path call.
+func c05BlobPathArg(call ssa.CallInstruction) ssa.Value {
+	args := call.Common().Args
+	i := 0
+	if g := StaticCallee(call); g != nil {
+		i = c05BlobPathSubjIdx[g]
+	}
+	if i >= len(args) {
+		return nil
+	}
+	return args[i]
 }
 
 func c05R2OCI(c *Ctx) {
@@ -1135,7 +1174,7 @@ func c05R2OCI(c *Ctx) {
 			if r0 == nil || !derivesFromAny(dv, map[ssa.Value]bool{r0: true}, 0) {
 				continue
 			}
-			if p := c05BlobPathSubject(call); p != nil && (c05IsOCIDescriptor(p.Type()) || c05FieldOfParam(call.Common().Args[0], "Digest") == p) {
+			if p := c05BlobPathSubject(call); p != nil && (c05IsOCIDescriptor(p.Type()) || c05FieldOfParam(c05BlobPathArg(call), "Digest") == p) {
 				if w, at := dat.up(p); at.isRoot() && w == ssa.Value(expected) {
 					okDst = true
 				}
@@ -1840,6 +1879,9 @@ func c05MapInventory(c *Ctx, R string, fns []*ssa.Function, typ, field string, w
 		name := ""
 		if isCall && len(call.Common().Args) > 0 && call.Common().Args[0] == ssa.Value(u.Addr) {
 			name = CalleeName(call)
+			if mv := c05MapOp(call); mv != nil {
+				name = mv.Name // a forwarding method of a sync.Map wrapper counts as the operation it forwards to
+			}
 		}
 		// a bound method value (`for k, v := range m.content.Range`): the method it is bound to
 		if mc, isMC := u.Use.(*ssa.MakeClosure); isMC && len(mc.Bindings) == 1 && mc.Bindings[0] == ssa.Value(u.Addr) {
@@ -2578,7 +2620,9 @@ func c05R5(c *Ctx) {
 							}
 						}
 					}
-				case n == "(*sync.Map).Load":
+				case c05MapOpName(call) == "(*sync.Map).Load":
+					mv := c05MapOp(call)
+					args := []ssa.Value{mv.Recv, mv.Key}
 					// the key must be the one the publication uses for the same descriptor (R2): the CAS key
 					// descriptor.FromOCI(desc) for cas.Memory, the digest for the file store's digest->path map —
 					// a hit under any weaker key is not evidence that Fetch of this descriptor succeeds
@@ -2586,7 +2630,7 @@ func c05R5(c *Ctx) {
 						(c05IsFieldAddrOf(args[0], "~/content/file.Store", c05Cur.F("file.digestToPath")) && digestOfTarget(args[1]))
 					published := okKey
 					if okKey && published {
-						if okv := ResultOf(call, 1); okv != nil {
+						if okv := mv.Ok; okv != nil {
 							forward[okv] = true
 							te, _ := BoolTests(fn, Aliases(okv))
 							evidence = append(evidence, [][]Edge{te})
@@ -2597,7 +2641,7 @@ func c05R5(c *Ctx) {
 					p := args[len(args)-1]
 					okPath := false
 					for _, bc := range Calls(fn, func(string) bool { return true }) {
-						if g := StaticCallee(bc); g != nil && bp[g] && (digestOfTarget(bc.Common().Args[0]) || (c05IsOCIDescriptor(bc.Common().Args[0].Type()) && isTarget(bc.Common().Args[0]))) {
+						if g := StaticCallee(bc); g != nil && bp[g] && c05BlobPathArg(bc) != nil && (digestOfTarget(c05BlobPathArg(bc)) || (c05IsOCIDescriptor(c05BlobPathArg(bc).Type()) && isTarget(c05BlobPathArg(bc)))) {
 							if r0 := ResultOf(bc, 0); r0 != nil && SameValue(p, r0) {
 								okPath = true
 							}
@@ -2615,8 +2659,13 @@ func c05R5(c *Ctx) {
 						if ta, isTA := r.(*ssa.TypeAssert); isTA {
 							r = ta.X
 						}
-						if e, isE := r.(*ssa.Extract); isE && e.Index == 0 {
-							if lc, isC := e.Tuple.(*ssa.Call); isC && CalleeName(lc) == "(*sync.Map).Load" && c05IsFieldAddrOf(lc.Call.Args[0], "~/content/file.Store", c05Cur.F("file.digestToPath")) && digestOfTarget(lc.Call.Args[1]) {
+						if e, isE := r.(*ssa.Extract); isE {
+							lc, isC := e.Tuple.(*ssa.Call)
+							var mv *c05MapView
+							if isC {
+								mv = c05MapOp(lc)
+							}
+							if mv != nil && mv.Name == "(*sync.Map).Load" && mv.Value == ssa.Value(e) && c05IsFieldAddrOf(mv.Recv, "~/content/file.Store", c05Cur.F("file.digestToPath")) && digestOfTarget(mv.Key) {
 								if r0 := ResultOf(call, 0); r0 != nil {
 									forward[r0] = true
 								}
